@@ -119,6 +119,79 @@ theorem find_sound (s : List Nat → Nat → Option (Option Nat)) (hs : IsSearch
     simp only [Option.some.injEq] at hp
     exact h2 hnone p (List.mem_of_getElem? hp)
 
+/-- **`find_tag`** (claim-audit, C12 table: it had only `no_panic`), for ANY acceptable
+search: it does not panic; an index it returns is in range and holds exactly the tag `w`
+(`get` at that index returns a pair tagged `w`), and then `find(w)` is that pair's value
+(`find` IS `get_value(find_tag(w)?)`); it returns nothing only when no pair carries `w`,
+and then so does `find`. -/
+theorem find_tag_sound (s : List Nat → Nat → Option (Option Nat)) (hs : IsSearch s)
+    (d : List UInt8) (v : View) (h : View.new d = some (.ok v)) (w : Nat) :
+    ∃ r, v.findTagWith s w = some r ∧
+      (∀ i, r = some i → i < hdrCount d ∧
+        ∃ val, v.get i = some (some (w, val)) ∧ v.getValue i = some (some val) ∧
+          v.findWith s w = some (some val)) ∧
+      (r = none → (∀ i p, v.get i = some (some p) → p.1 ≠ w) ∧ v.findWith s w = some none) := by
+  obtain ⟨rfl, hv⟩ := (View.new_ok_iff d v).mp h
+  obtain ⟨r, hr, hsome, hnone⟩ := hs (hdrTags d) w hv.tags
+  have hft : View.findTagWith s ⟨d⟩ w = some r := by
+    unfold View.findTagWith
+    rw [View.tags_eq d hv.h4 hv.h8]
+    exact hr
+  refine ⟨r, hft, ?_, ?_⟩
+  · intro i hi
+    subst hi
+    have hti := hsome i rfl
+    rw [hdrTags_getElem?] at hti
+    by_cases hlt : i < hdrCount d
+    · simp only [hlt, if_true, Option.some.injEq] at hti
+      refine ⟨hlt, valueAt d i, ?_, View.getValue_eq hv hlt, ?_⟩
+      · rw [View.get_eq hv i, pairsOf_getElem?]
+        simp [hlt, tagAt, hti]
+      · unfold View.findWith
+        rw [hft]
+        exact View.getValue_eq hv hlt
+    · simp [hlt] at hti
+  · intro hn
+    subst hn
+    refine ⟨?_, by unfold View.findWith; rw [hft]⟩
+    intro i p hp hpw
+    rw [View.get_eq hv i] at hp
+    simp only [Option.some.injEq] at hp
+    apply hnone rfl
+    rw [hdrTags_eq_pairsOf]
+    exact List.mem_map.mpr ⟨p, List.mem_of_getElem? hp, hpw⟩
+
+/-- **The empty message** (the case `values_tile` has to exclude): when `N = 0` the view is
+accepted whatever follows the count word, and those bytes belong to nothing - iteration is
+empty, every index and every tag lookup yields nothing.  (So "the values tile the bytes
+after the header" holds for `N = 0` exactly when nothing follows the count word; the
+property's tiling clause is stated for `N ≥ 1`.) -/
+theorem empty_message (d : List UInt8) (v : View) (h : View.new d = some (.ok v)) (hN : hdrCount d = 0) :
+    v.iter = some [] ∧ v.len = some 0 ∧ v.isEmpty = some true ∧ v.tags = some [] ∧
+    (∀ i, v.getValue i = some none ∧ v.get i = some none) ∧
+    (∀ w, v.find w = some none ∧ v.findTag w = some none) := by
+  obtain ⟨ps, h1, h2, h3, h4, _, _, _⟩ := accessors_agree d v h
+  obtain ⟨rfl, hv⟩ := (View.new_ok_iff d v).mp h
+  have hps : ps = [] := by
+    have := View.iter_eq hv
+    rw [h1] at this
+    simp only [Option.some.injEq] at this
+    subst this
+    exact List.eq_nil_of_length_eq_zero (by simp [hN])
+  subst hps
+  refine ⟨h1, h2, by simpa using h3, by simpa using h4, fun i => oob_none d _ h i (by omega), ?_⟩
+  intro w
+  obtain ⟨r, hr, hs1, hs2⟩ := find_tag_sound binarySearch binarySearch_isSearch d _ h w
+  cases r with
+  | some i => exact absurd (hs1 i rfl).1 (by omega)
+  | none => exact ⟨(hs2 rfl).2, hr⟩
+
+/-- … and an accepted message with `N = 0` and trailing bytes exists, so the tiling clause
+cannot be stated for `N = 0` (the counter-example of the audit). -/
+theorem empty_message_trailing_bytes :
+    View.new [0,0,0,0, 9,9,9] = some (.ok ⟨[0,0,0,0, 9,9,9]⟩) ∧ hdrCount [0,0,0,0, 9,9,9] = 0 ∧
+    ([0,0,0,0, 9,9,9] : List UInt8).drop (8 * 0) ≠ [] := by decide
+
 end Woodpile.Props.C12
 
 namespace Woodpile.Props.C12
